@@ -731,3 +731,15 @@ Proof.
   destruct (String.eqb a "<self>"); [reflexivity|].
   destruct (mod_get (m ++ "." ++ a)%string mt); reflexivity.
 Qed.
+
+(** dict.update re-binds: a name of the merged dict reads as the merged dict's object afterwards *)
+Lemma ns_get_update_in k v d : forall c,
+  NoDup (ns_keys d) -> ns_get k d = Some v -> ns_get k (ns_update c d) = Some v.
+Proof.
+  induction d as [|[k' v'] r IH]; intros c N H; [discriminate|].
+  simpl in H. inversion N as [|? ? Hn Hr]; subst. rewrite ns_update_cons.
+  destruct (String.eqb k k') eqn:E.
+  - apply String.eqb_eq in E; subst k'. inversion H; subst.
+    rewrite ns_get_update_notin by assumption. apply ns_get_set_same.
+  - apply IH; assumption.
+Qed.
